@@ -401,3 +401,15 @@ Fixpoint trace (c : cfg) (s : state) (es : list ev) : list (state * list out) :=
   | [] => []
   | e :: r => let so := step c s e in so :: trace c (fst so) r
   end.
+
+(* ---- the graph hypothesis of the scheduler theorems, as a boolean ----
+   y is reached by purge's recursion from x  iff  y = x or x is an ancestor of y;
+   (checked on every graph the real dag.Construct produced; C09 proves it of the
+   Dag model) *)
+Definition wf_graphb (c : cfg) : bool :=
+  forallb (fun x => forallb (fun y =>
+     Bool.eqb (mem y (descend c (nnodes c) x)) (Nat.eqb y x || mem x (anc (gi c y))))
+     (seq 0 (nnodes c))) (seq 0 (nnodes c))
+  && forallb (fun x => forallb (fun y => y <? nnodes c) (descend c (nnodes c) x)) (seq 0 (nnodes c))
+  && forallb (fun y => negb (mem y (anc (gi c y))) && forallb (fun a => a <? nnodes c) (anc (gi c y)))
+             (seq 0 (nnodes c)).
